@@ -33,15 +33,51 @@ function check (job, resp, prefix) {
 module.exports = {
   id: 'C04',
   level: 'translation_validation',
-  rule: 'policy model required(inputAST, config) (written from the property text) marks every node that must be hooked; the erased+aligned output (see C02) must carry a hook annotation with the configured name on each of them. Workload: corpus files, catalogue placements x forms, random programs, under rotating configurations. distinct_nontrivial = distinct (input, config) with >= 1 required operation located. Workload additions: corpus files with enabled operations spliced onto randomly chosen expression nodes (25 wrappers x every expression slot; only texts V8 still compiles), the syntax zoo with LF/CRLF/CR line endings, a CRLF slice of the corpus.',
+  rule: 'policy model required(inputAST, config) (written from the property text) marks every node that must be hooked; the erased+aligned output (see C02) must carry a hook annotation with the configured name on each of them. Workload: corpus files, catalogue placements x forms, random programs, under rotating configurations. distinct_nontrivial = distinct (input, config) with >= 1 required operation located. Workload additions: corpus files with enabled operations spliced onto randomly chosen expression nodes (25 wrappers x every expression slot; only texts V8 still compiles), the syntax zoo with LF/CRLF/CR line endings, a CRLF slice of the corpus. Package layer: call histories through the real main.js (shared CacheRewriter / NonCacheRewriter instances, same paths asked again with other texts - also one-character edits of equal length): every content handed out must carry the hook sites the same call gets on a freshly loaded package.',
   assumptions: [
     'the policy demands only what the statement states: literal-only sums, literal this-arguments of prototype calls, apply() without an argument list, spread this-arguments, bare calls, expression-bodied arrows outside any block and receivers outside the whitelist are not demanded',
     'files whose erased output does not align with the input (a C02 violation) are inconclusive for C04 and counted',
     'String.prototype.m.apply(x, nonArrayLiteral) is demanded by the letter of the statement and recorded as known finding D19'
   ],
-  plan (ctx) { return plan(ctx, { quickCorpus: 320, exec: { quickRandom: 2500, quickFormsPerPlacement: 10, thoroughRandom: 30000 } }) },
+  plan (ctx) {
+    const shards = plan(ctx, { quickCorpus: 320, exec: { quickRandom: 2500, quickFormsPerPlacement: 10, thoroughRandom: 30000 } })
+    // the instrumentation as the package API hands it out: over call histories through the real main.js every content must carry
+    // the hook sites that the same call gets on a freshly loaded package (the policy-checked single-call instrumentation)
+    for (let k = 0, n = ctx.tier === 'thorough' ? 96 : 10; k < n; k++) shards.push({ kind: 'package', stream: 6000 + k, histories: 3 })
+    return shards
+  },
   minEvaluations (ctx) { return ctx.tier === 'thorough' ? 3000 : 200 },
   async runShard (spec, ctx) {
+    if (spec.kind === 'package') {
+      const PH = require('../lib/pkghistory')
+      const A = require('../lib/astmon')
+      const { Rng, hashStr } = require('../lib/util')
+      const rep = { evaluations: 0, distinct: [], violations: [], inconclusive: [], samples: [], counters: {}, sets: { placements: [], forms: [] } }
+      const bump = (k, n = 1) => { rep.counters[k] = (rep.counters[k] || 0) + n }
+      const sitesOf = (r) => { if (!r || r.error !== undefined || typeof r.content !== 'string') return null; const p = A.parseAuto(r.content); return p.ast ? A.census(p.ast).sites.map(x => x.name).sort().join(',') : null }
+      for (let h = 0; h < spec.histories; h++) {
+        const rng = new Rng(ctx.seed, 'c04pkg', spec.stream, h)
+        let hist
+        try { hist = PH.runHistory(rng, `c04_${spec.stream}_${h}`) } catch (e) { rep.inconclusive.push({ reason: 'package-history-failed', detail: String(e && e.message).slice(0, 200) }); continue }
+        bump('package_histories')
+        const shape = hist.calls.map(c => `${c.kind}@${c.file.split('/').slice(-3).join('/')}`)
+        const seen = new Set()
+        for (const c of hist.calls) {
+          const want = sitesOf(c.fresh); const got = sitesOf(c.response)
+          if (want === null) continue // the call fails (or is unparsable) on a fresh package too: nothing is demanded
+          rep.evaluations++; bump('package_calls')
+          rep.distinct.push(hashStr(spec.stream + ':' + h + ':' + c.step))
+          if (got !== want) {
+            const sig = `package:missed:${c.kind}`
+            if (seen.has(sig)) continue
+            seen.add(sig)
+            rep.violations.push({ sig, what: `through main.js (${c.rewriter}, config ${c.cfgName}): call #${c.step} of history [${shape.join(', ')}] for ${c.file}: the content handed out has the hook sites [${got}], the same call on a freshly loaded package instruments [${want}]`, witness: { packageHistory: hist.calls.map(x => ({ kind: x.kind, file: x.file, code: x.code, cfgName: x.cfgName, rewriter: x.rewriter })), step: c.step } })
+          }
+        }
+        if (rep.samples.length < 1) rep.samples.push({ package_history: shape })
+      }
+      return rep
+    }
     const js = jobs(spec, ctx)
     const { responses, prefixes } = rewriteJobs(js)
     const rep = { evaluations: 0, distinct: [], violations: [], inconclusive: [], samples: [], counters: {}, sets: { placements: [], forms: [] } }
